@@ -35,6 +35,7 @@ def snap(c):
     p = proj(c)
     g = c.graph
     extra = sorted([str(n), str(k), repr(v)] for n in g.nodes for k, v in g.nodes[n].items() if k not in ("type", "output"))
+    extra += sorted([str(n), "<attribute missing>", k] for n in g.nodes for k in ("type", "output") if k not in g.nodes[n])
     extra += sorted(["<graph>", str(k), repr(v)] for k, v in g.graph.items())
     extra += sorted(["<edge>%s>%s" % (u, v), str(k), repr(w)] for u, v, d in g.edges(data=True) for k, w in d.items())
     return p, extra
@@ -194,6 +195,11 @@ def make_circuit(ctx, r, variant):
         nx.relabel_nodes(c.graph, {n: "\\" + n + "[1]" for n in list(c.graph.nodes) if n.startswith("n") and r.random() < 0.4}, copy=False)
     if variant % 2 == 0:
         gen.add_flops(r, c, r.randint(1, 2))
+    if variant % 3 == 0:
+        # circuits wrapped around a raw graph (or read by the fast parser) lack the optional `output` attribute
+        for n in list(c.graph.nodes):
+            if not c.graph.nodes[n].get("output") and r.random() < 0.6:
+                del c.graph.nodes[n]["output"]
     return c
 
 
@@ -205,7 +211,11 @@ def run_case(case, ctx):
     tmpdir = tempfile.mkdtemp(prefix="c19_", dir=ctx.scratch)
     os.environ["CGV_APPROXMC_CAPTURE"] = os.path.join(tmpdir, "cap")
     c = make_circuit(ctx, r, case["salt"])
-    R = recipes(cg, c, r, tmpdir)
+    b0, x0 = snap(c)
+    R = recipes(cg, c, r, tmpdir)      # building the recipes already queries the circuit (nodes, type, outputs, inputs)
+    a0, xa0 = snap(c)
+    evs.append({"kind": "frame", "fn": "Circuit.nodes/type/outputs/inputs", "raised": "", "before": b0, "after": a0, "xb": x0, "xa": xa0,
+                "nontrivial": True})
     miss = uncovered(cg, R)
     if miss:
         ctx.stats["functions_without_recipe:" + ",".join(sorted(miss))] = 1
